@@ -92,7 +92,7 @@ static std::map<int, gr_face*> g_faces; static std::map<int, TableSet*> g_ts; st
 
 static gr_face *pad_face(int fi) {
     auto it = g_faces.find(fi); if (it != g_faces.end()) return it->second;
-    TableSet *ts = new TableSet; ts->from_file(font_path(g_padfonts[fi])); MemFace *mf = new MemFace; mf->ts = ts;
+    TableSet *ts = new TableSet; ts->from_file(g_padfonts[fi][0] == '/' ? g_padfonts[fi] : font_path(g_padfonts[fi])); MemFace *mf = new MemFace; mf->ts = ts;
     gr_face *f = mf->make(gr_face_preloadAll); g_faces[fi] = f; g_ts[fi] = ts; g_mf[fi] = mf; return f;
 }
 static uint32_t padded(uint32_t tag, int k, uint8_t fill) {
@@ -105,10 +105,12 @@ static std::string fv_dump(const gr_face *f, gr_feature_val *fv) {
 }
 static void setup_pad(Runner &r, const Tier &t) {
     g_pad.clear(); g_padfonts.clear(); g_padtext.clear();
-    const auto &sf = shipped_fonts();
+    std::vector<ShippedFont> sf = shipped_fonts();
+    if (!t.thorough) sf.resize(8);
+    static std::vector<std::string> gen; gen = { gen_dir() + "/feat_shortids.ttf", gen_dir() + "/feat_1_31_1.ttf", gen_dir() + "/s_full.ttf" };
+    for (auto &g : gen) sf.push_back({ g.c_str(), "test_small.txt", false });
     for (size_t i = 0; i < sf.size(); ++i) {
-        if (!t.thorough && i >= 8) break;
-        TableSet ts; if (!ts.from_file(font_path(sf[i].file))) continue;
+        TableSet ts; if (!ts.from_file(sf[i].file[0] == '/' ? std::string(sf[i].file) : font_path(sf[i].file))) continue;
         MemFace mf; mf.ts = &ts; gr_face *f = mf.make(0); if (!f) continue;
         int fi = int(g_padfonts.size()); g_padfonts.push_back(sf[i].file);
         auto items = corpus_items(sf[i].corpus, 3); g_padtext.push_back(items.empty() ? "ab" : items[0]);
@@ -128,8 +130,8 @@ static void setup_pad(Runner &r, const Tier &t) {
     r.body = [](uint64_t i, ShardCtl &ctl) {
         const PadCase &c = g_pad[i]; gr_face *f = pad_face(c.font); if (!f) return;
         uint32_t z = padded(c.tag, c.k, 0), s = padded(c.tag, c.k, 0x20);
-        // a prefix that itself contains a zero byte cannot be written with space padding only: skip those
-        for (int b = 0; b < c.k; ++b) if (uint8_t(c.tag >> (24 - 8 * b)) == 0) return;
+        // prefixes that already contain a padding byte (NUL or space) are not well-formed tags: skipped
+        for (int b = 0; b < c.k; ++b) { uint8_t ch = uint8_t(c.tag >> (24 - 8 * b)); if (ch == 0 || ch == 0x20) return; }   // a prefix containing padding itself is not a tag
         bool ok = true; std::string why;
         if (c.kind == 0) {
             const gr_feature_ref *a = gr_face_find_fref(f, z), *b = gr_face_find_fref(f, s);
